@@ -267,6 +267,19 @@ def c04_sense_snapshot(E):
     if sol is None or sol.status != "optimal":
         return
     _certify(E, m, sol, obj, eff, opt, tag="")
+    # get_solution for a selection (objects, ids are not accepted here; an empty selection is a selection): exactly the
+    # requested entries, with the values of the full solution
+    from cobra.core.solution import get_solution
+    sel = E.pick("get_solution_selection", ["none", "empty", "first-reaction-and-last-metabolite"])
+    if sel != "none":
+        rs = [] if sel == "empty" else [m.reactions[0]]
+        ms = [] if sel == "empty" else [m.metabolites[-1]]
+        part = get_solution(m, reactions=rs, metabolites=ms)
+        E.prove(list(part.fluxes.index) == [r.id for r in rs] and list(part.reduced_costs.index) == [r.id for r in rs]
+                and list(part.shadow_prices.index) == [x.id for x in ms], "get_solution=requested-selection",
+                fluxes=list(part.fluxes.index), shadow=list(part.shadow_prices.index))
+        E.prove(E.all_of([E.eq(part.fluxes[r.id], sol.fluxes[r.id]) for r in rs if r.id in part.fluxes.index]
+                         + [E.eq(part.objective_value, sol.objective_value)]), "get_solution=requested-selection:values")
     # snapshot: later edits / optimisations do not alter the Solution
     snap = (sol.objective_value, list(sol.fluxes), list(sol.reduced_costs), list(sol.shadow_prices), sol.status)
     j = E.choice("edit_reaction", len(ids), ids)
